@@ -21,6 +21,21 @@ class CheckError(Exception):
 # facts
 
 
+def _or_alternatives(pat):
+    """top-level alternatives of a pattern (or-patterns flattened, also under a reference pattern)"""
+    k = pat.get('k')
+    if k == 'or':
+        out = []
+        for x in pat['s']:
+            out += _or_alternatives(x)
+        return out
+    if k in ('ref', 'deref') and isinstance(pat.get('s'), dict):
+        inner = _or_alternatives(pat['s'])
+        if len(inner) > 1:
+            return [dict(pat, s=x) for x in inner]
+    return [pat]
+
+
 class Facts:
     def __init__(self, path):
         pk = path + '.pickle'
@@ -45,6 +60,23 @@ class Facts:
         self._bodies = {}
         self.matches = defaultdict(list)
         for m in r['matches']:
+            # an arm `A | B => body` is presented to the rules as two arms with the same body: rules reason per
+            # alternative, so merging / splitting arms with identical bodies does not change what they see
+            if not m.get('_expanded'):
+                arms = []
+                for oi, a in enumerate(m['arms']):
+                    alts = _or_alternatives(a['pat'])
+                    if len(alts) > 1:
+                        for alt in alts:
+                            a2 = dict(a)
+                            a2['pat'] = alt
+                            a2['or_of'] = oi
+                            arms.append(a2)
+                    else:
+                        arms.append(a)
+                m['arms_src'] = m['arms']
+                m['arms'] = arms
+                m['_expanded'] = True
             self.matches[m['fn']].append(m)
         self.structs = r['structs']
         self.closures = r['closures']
@@ -1346,3 +1378,12 @@ def fmt_templates(body):
             consts = [o[1] for o in og if o[0] == 'const']
             res.append((c, decode_fmt_template(consts[0]) if len(consts) == 1 else None))
     return res
+
+
+def builds_error(F, c):
+    """does this call construct an interpreter error? NErr::*_error / NErr::throw, or any crate function whose return type is
+    core::NErr (error-constructing helpers extracted by a refactoring)"""
+    if re.search(r'NErr::\w+_error(_\d)?$|core::NErr::throw$|NErr::argument_error_\w+$', c.target):
+        return True
+    fn = F.fns.get(c.target)
+    return bool(fn) and fn.get('output') == 'core::NErr'
